@@ -17,3 +17,4 @@ pub mod c14;
 pub mod c05;
 pub mod c18;
 pub mod c19;
+pub mod c10;
